@@ -187,7 +187,7 @@ impl Prop for C10 {
     const PART: &'static str = "interpolation";
     const RULE: &'static str = "lattice: all ordered pairs over the C09 lattices x t in {0, ulp, 0.25, 1/3, 0.5, 1-ulp, 1}; random: proptest choice sequences -> space of a random kind/layout/weights, pair (50% near, SO3 dot swept through the 0.9995 switch), t uniform / endpoint / step-over-distance. Non-trivial = a != b, 0 < t < 1 and the pair in a hard class (seam crossing, antipodal, non-canonical, negative / near-0 / near-switch dot, |x| > 1e6).";
     fn random_cases(tier: Tier) -> usize {
-        tier.pick(1_000_000, 8_000_000)
+        tier.pick(3_000_000, 16_000_000)
     }
     fn gen(ch: &mut Ch, _tier: Tier) -> InterpCase {
         let kind = ch.pick(&ALL_KINDS);
